@@ -289,6 +289,15 @@ macro_rules! purge_method_for_document_type {
           })
         }
         (Err(key_deletion_error), Ok(_)) => {
+          // A key storage may report a failure after it has removed the key (e.g. when persisting the removal is what
+          // failed). Then there is nothing left to revert to.
+          if !matches!(<K as JwkStorage>::exists(&storage.key_storage(), &key_id).await, Ok(true)) {
+            return Err(Error::UndoOperationFailed {
+              message: format!("cannot revert key id deletion: the key with key id {key_id} is no longer in storage"),
+              source: Box::new(Error::KeyStorageError(key_deletion_error)),
+              undo_error: None,
+            });
+          }
           // Attempt to revert: Reinsert key id and method if possible.
           if let Err(key_id_insertion_error) =
             <I as KeyIdStorage>::insert_key_id(&storage.key_id_storage(), (&method_digest).clone(), key_id.clone())
@@ -306,9 +315,28 @@ macro_rules! purge_method_for_document_type {
             Err(Error::KeyStorageError(key_deletion_error))
           }
         }
-        (Err(_key_deletion_error), Err(key_id_deletion_error)) => {
-          // We assume this means nothing got deleted. Reinsert the method and return one of the errors (perhaps
-          // key_id_deletion_error as we really expect the key id storage to work as expected at this point).
+        (Err(key_deletion_error), Err(key_id_deletion_error)) => {
+          // This should mean that nothing got deleted, but a storage may report a failure after it has removed its
+          // entry (e.g. when persisting the removal is what failed): only claim that nothing changed if both are
+          // still there.
+          let key_exists: bool = matches!(
+            <K as JwkStorage>::exists(&storage.key_storage(), &key_id).await,
+            Ok(true)
+          );
+          let key_id_exists: bool = <I as KeyIdStorage>::get_key_id(&storage.key_id_storage(), &method_digest)
+            .await
+            .is_ok();
+          if !(key_exists && key_id_exists) {
+            return Err(Error::UndoOperationFailed {
+              message: format!(
+                "cannot undo deletion: key with key id {key_id} still in storage: {key_exists}, key id still in storage: {key_id_exists}"
+              ),
+              source: Box::new(Error::KeyIdStorageError(key_id_deletion_error)),
+              undo_error: Some(Box::new(Error::KeyStorageError(key_deletion_error))),
+            });
+          }
+          // Reinsert the method and return one of the errors (perhaps key_id_deletion_error as we really expect the key
+          // id storage to work as expected at this point).
           *document = document_before_removal;
           Err(Error::KeyIdStorageError(key_id_deletion_error))
         }
